@@ -24,6 +24,11 @@ BASE_FORM = {"plit": "lit", "plocal": "local", "ppredef": "predef"}
 VARIANTS = [("int-neg", "INTEGER", "lit"), ("float-neg", "FLOAT", "lit"), ("rtime-m", "RTIME", "lit"), ("rtime-h", "RTIME", "lit"),
             ("rtime-d", "RTIME", "lit"), ("rtime-y", "RTIME", "lit"), ("rtime-ms", "RTIME", "lit"), ("str-long", "STRING", "lit"),
             ("bool-false", "BOOL", "lit"), ("hdr-field", "header", "local")]
+# identifiers drawn for the first ID-typed argument of a built-in (and the target of `add`): every HTTP object
+# family in three shapes (header, header collection, object), declared objects, enumeration identifiers
+ID_OBJECTS = ["req", "bereq", "beresp", "resp", "obj"]
+ID_IDENTS = ([o + ".http.X-Verif-One" for o in ID_OBJECTS] + [o + ".headers" for o in ID_OBJECTS] + ID_OBJECTS
+             + ["pb_one", "rc_one", "tbl_one", "acl_one", "be_one", "aes128", "sha256"])
 COERCE_CTX = ["arg", "ret", "par"]
 VALUE_TYPES = ["INTEGER", "FLOAT", "STRING", "BOOL", "RTIME", "TIME", "IP", "BACKEND", "ACL"]
 DEPTHS = [1, 2, 3]
@@ -72,7 +77,7 @@ def impl():
     return [os.path.join(V.BUILD, "implrun"), "c05"]
 
 
-def parallel_batch(reqs, nproc=12, hang_s=30):
+def parallel_batch(reqs, nproc=16, hang_s=30):
     """run_batch over nproc processes (requests dealt round-robin so that expensive kinds are spread;
     replies in request order)"""
     n = len(reqs)
@@ -194,6 +199,22 @@ def observe(tier="quick", only=None):
                 if form_exists(r, f):
                     reqs.append("cell O,%s,%s,%s,%s" % (op, l, r, f))
                     index.append((row, p, "cell"))
+    # the first ID-typed argument of every built-in that has one (and the target of the add statement) drawn from every
+    # identifier of ID_IDENTS, in each of the nine scopes.  The verdict of a cell is relative to the BASELINE cell of the
+    # same function and scope, whose identifier is of the correct kind ("@": harness tIDArg): see idarg_verdict
+    o.idargs = []
+    idrows = [(f["name"], i) for f in funcs for i, sg in enumerate(f["sigs"]) if "ID" in sg.split(",")] + [("stmt:add", 0)]
+    for fn, i in idrows:
+        row = {"fn": fn, "sig": i, "lint": [None] * (9 * len(ID_IDENTS)), "interp": [None] * (9 * len(ID_IDENTS)),
+               "msg": [None] * (9 * len(ID_IDENTS)), "base": [None] * 9}
+        o.idargs.append(row)
+        for sc in range(9):
+            reqs.append("cellm A,%s,%d,%s,%d" % (fn, i, "req.http.X-Verif-One" if fn == "stmt:add" else "@", 1 << sc))
+            index.append((row, sc, "idbase"))
+        for k, idn in enumerate(ID_IDENTS):
+            for sc in range(9):
+                reqs.append("cellm A,%s,%d,%s,%d" % (fn, i, idn, 1 << sc))
+                index.append((row, 9 * k + sc, "idcell"))
     # literal spellings / header sub-field as right operand
     o.variants = []
     for op in ASSIGN_OPS + CMP_OPS:
@@ -291,6 +312,21 @@ def observe(tier="quick", only=None):
     reps = parallel_batch(reqs)
     for req, (row, p, kind), rep in zip(reqs, index, reps):
         f = (rep or "").split()
+        if kind in ("idbase", "idcell"):
+            head, _, msg = (rep or "").partition(" | ")
+            h = head.split()
+            if len(h) == 3 and h[0] in ("A", "R"):
+                if kind == "idbase":
+                    row["base"][p] = (h[1], msg)
+                else:
+                    o.cells += 1
+                    row["lint"][p] = h[0] == "A"
+                    row["interp"][p] = h[1]
+                    row["msg"][p] = msg
+                    o.programs_run += int(h[2])
+            else:
+                o.bad.append((req, rep))
+            continue
         if kind == "wide":
             if len(f) == 2 and f[0] == "bits":
                 row["bits"] = int(f[1])
@@ -362,6 +398,56 @@ def fresh_process_check(rng, n_random=40):
     return len(sample), [(c, a, b) for c, a, b in zip(sample, fresh, long_lived) if a != b]
 
 
+def idarg_where(b):
+    """every cell of an identifier-argument row: identifiers grouped by the scopes in which the cell is in the row"""
+    by = {}
+    for p0 in positions(b, 9 * len(ID_IDENTS)):
+        by.setdefault(ID_IDENTS[p0 // 9], []).append(SCOPES[p0 % 9])
+    groups = {}
+    for i, sc in by.items():
+        groups.setdefault(",".join(sc) if len(sc) < 9 else "every scope", []).append(i)
+    return "; ".join("%s in %s" % (" / ".join(ids), sc) for sc, ids in groups.items())
+
+
+def idarg_undecided(o):
+    """the accepted cells whose baseline cell fails too, per function: which identifiers in which scopes, and how the
+    baseline fails there (evidence only)"""
+    out = []
+    for r in o.idargs:
+        und = [p for p in range(len(r["interp"])) if r["lint"][p] and idarg_verdict(r, p).startswith("undecided")]
+        if und:
+            scs = sorted({p % 9 for p in und})
+            out.append({"function": r["fn"], "signature": r["sig"], "cells": len(und),
+                        "identifiers": idarg_where(sum(1 << p for p in und)),
+                        "baseline": {SCOPES[sc]: r["base"][sc][1] for sc in scs}})
+    return out
+
+
+def _norm_msg(msg):
+    """a simulator message without the parts that name the identifier, the scope or a position"""
+    m = re.sub(r"line: \d+, position: \d+", "", msg or "")
+    for w in sorted(ID_IDENTS + ["X-Verif-One", "beresp", "resp"], key=len, reverse=True):
+        m = m.replace(w, "<id>")
+    return re.sub(r"\b(recv|hash|hit|miss|pass|fetch|error|deliver|log)\b", "<scope>", m, flags=re.I)
+
+
+def idarg_verdict(row, p):
+    """'ok'                  the cell runs;
+    'counts'                 it raises an error that is attributable to the identifier: the baseline cell of the same
+                             function and scope (same call, identifier of the correct kind) runs clean - or the cell
+                             crashes;
+    'undecided-same' / 'undecided-different'
+                             the baseline cell fails too (with the same message up to the identifier / another one), e.g.
+                             because no object of the kind exists in the scope: nothing about the identifier can be
+                             concluded from this cell; reported in the evidence, never as a finding"""
+    if row["interp"][p] == "ok":
+        return "ok"
+    base = row["base"][p % 9]
+    if base is None or base[0] == "ok" or row["interp"][p] == "crash":
+        return "counts"
+    return "undecided-same" if _norm_msg(base[1]) == _norm_msg(row["msg"][p]) else "undecided-different"
+
+
 def show(spec):
     return V.run_batch(impl(), ["show " + spec])[0]
 
@@ -423,6 +509,14 @@ def write_obs(o):
     b.append(";\n".join("(%s, %d, %d)" % (cs(r["kind"]), lint_bits(r), interp_bits(r)) for r in o.stmts))
     b.append("].\n")
     _write(os.path.join(gen, "ObsStmts.v"), "".join(b))
+    b = [HEADER]
+    b.append("(* the first ID-typed argument drawn from every identifier of idarg_idents: (function or stmt:add, signature,\n"
+             "   linter accepts, the simulator raises no error ATTRIBUTABLE TO THE IDENTIFIER: the cell runs, or the baseline cell -\n"
+             "   the same call with an identifier of the correct kind in the same scope - fails too): bit 9 * identifier index + scope index *)\n")
+    b.append("Definition obs_idargs : list (string * N * N * N) := [\n")
+    b.append(";\n".join("(%s, %d, %d, %d)" % (cs(r["fn"]), r["sig"], lint_bits(r), bits([idarg_verdict(r, p) != "counts" for p in range(len(r["interp"]))])) for r in o.idargs))
+    b.append("].\n")
+    _write(os.path.join(gen, "ObsIdArgs.v"), "".join(b))
     b = [HEADER]
     b.append("(* (context, expected type, linter accepts, simulator executes): bit 14 * value type index + form index *)\n")
     b.append("Definition obs_coerce : list (string * string * N * N) := [\n")
@@ -505,7 +599,7 @@ def positions(bits_, n):
 
 
 GAP_PARTS = ["gaps_tables ++ gaps_func_table ++ gaps_var_types ++ gaps_funcs ++ gaps_stmts", "gaps_vars", "gaps_ops",
-             "gaps_variants ++ gaps_ops_left ++ gaps_coerce", "gaps_wide", "gaps_inferred"]
+             "gaps_variants ++ gaps_ops_left ++ gaps_coerce ++ gaps_idargs", "gaps_wide", "gaps_inferred"]
 
 
 def gap_rows():
@@ -557,6 +651,9 @@ def first_cell(row):
     if k.startswith("op-"):
         r, f = op_positions()[positions(b, 140)[0]]
         return "O,%s,%s,%s,%s" % (n, a, r, f)
+    if k.startswith("idarg-"):
+        p0 = positions(b, 9 * len(ID_IDENTS))[0]
+        return "A,%s,%s,%s,%d" % (n, a, ID_IDENTS[p0 // 9], 1 << (p0 % 9))
     if k.startswith("opv-"):
         return "X,%s,%s,%s" % (n, a, VARIANTS[positions(b, len(VARIANTS))[0]][0])
     if k.startswith("opl-"):
@@ -589,6 +686,7 @@ WHAT = {
     "stmt-model": "statement guard model differs from the real linter",
     "op-model": "operator model (Model/LintOps.v) differs from the real linter",
     "op-interp-model": "simulator decision model (Model/InterpAssign.v) differs from the real simulator",
+    "idarg-interp": "accepted by the linter, the simulator raises an error although the same call with an identifier of the correct kind runs in the same scope",
     "opv-lint": "the linter treats this spelling of the value differently from the plain literal / header of the same type",
     "opv-interp": "the simulator treats this spelling of the value differently from the plain literal / header of the same type",
     "opl-model": "operator model differs from the real linter (left operand provenance)",
@@ -608,6 +706,8 @@ WHAT = {
 
 def describe(row):
     k, n, a, b = row["kind"], row["name"], row["at"], row["bits"]
+    if k.startswith("idarg-"):
+        return "%s (signature %s) with the first identifier argument %s: %s" % (n, a, idarg_where(b), WHAT.get(k, k))
     if k.startswith("opv-"):
         return "%s %s %s [%s]: %s" % (a, n, "<value>", ", ".join(VARIANTS[p][0] for p in positions(b, len(VARIANTS))), WHAT.get(k, k))
     if k.startswith("op-") or k.startswith("opl-"):
